@@ -5,6 +5,7 @@ pub mod c02;
 pub mod c03;
 pub mod c04;
 pub mod c05;
+pub mod c06;
 
 pub type RunFn = fn(&Ctx) -> Finish;
 pub type ReplayFn = fn(&mut Local, &serde_json::Value) -> Result<(), String>;
@@ -16,6 +17,7 @@ pub fn registry() -> Vec<(&'static str, RunFn, ReplayFn)> {
         ("C03", c03::run as RunFn, c03::replay as ReplayFn),
         ("C04", c04::run as RunFn, c04::replay as ReplayFn),
         ("C05", c05::run as RunFn, c05::replay as ReplayFn),
+        ("C06", c06::run as RunFn, c06::replay as ReplayFn),
     ]
 }
 
